@@ -70,13 +70,16 @@ def expression_programs(max_ops: int, both_renderings: bool, per_module: int = 9
                 continue
             seen.add(text)
             rt = pyexpr.typ(t)
-            funcs.append((text, rt, '+'.join(pyexpr.op_classes(t)), pyexpr.n_ops(t)))
+            # the minimal rendering goes through an un-annotated local (its C++ declaration type comes from inference),
+            # the fully parenthesised one is returned directly
+            funcs.append((text, rt, '+'.join(pyexpr.op_classes(t)), pyexpr.n_ops(t), not full))
     for i in range(0, len(funcs), per_module):
         chunk = funcs[i:i + per_module]
         fns = []
-        for j, (text, rt, tag, n) in enumerate(chunk):
+        for j, (text, rt, tag, n, via_local) in enumerate(chunk):
             name = f'e{i + j}'
-            fns.append((name, f'def {name}(a: int, b: int, p: bool, q: bool) -> {rt}:\n\treturn {text}\n\n', Entry(name, P4, grid=G4, tag=f'expr:{tag}')))
+            body = f'\tx = {text}\n\treturn x\n\n' if via_local else f'\treturn {text}\n\n'
+            fns.append((name, f'def {name}(a: int, b: int, p: bool, q: bool) -> {rt}:\n' + body, Entry(name, P4, grid=G4, tag=f'expr:{tag}')))
         yield Program(f'expr{i // per_module}', HEADER, fns, layer='expr')
 
 
@@ -298,6 +301,8 @@ def feature_functions(full: bool):
     add('dict-contains', "d = {1: 2, 3: 4}\nif a in d:\n\treturn d[a]\nreturn -1")
     add('dict-not-contains', "d = {1: 2, 3: 4}\nif a not in d:\n\treturn 1\nreturn 0")
     add('dict-get-default', "d = {1: 2, 3: 4}\nreturn d.get(a, 9)")
+    add('dict-get-operand', "d = {1: 2, 3: 4}\nreturn (d.get(a, 0)) + 10")
+    add('dict-get-operand-noparen', "d = {1: 2, 3: 4}\nreturn d.get(a, 0) + 10")
     add('dict-pop', "d = {1: 2, 3: 4}\nv = d.pop(1)\nreturn v * 10 + len(d) + a")
     add('dict-keys-list', "d = {1: 2, 3: a}\nks = list(d.keys())\nreturn len(ks)")
     add('dict-values-sum', "d = {1: 2, 3: a}\nx = 0\nfor v in d.values():\n\tx += v\nreturn x")
@@ -462,4 +467,4 @@ def feature_programs(full: bool, per_module: int = 40):
 def programs(quick: bool):
     yield from statement_programs(1 if quick else 2)
     yield from feature_programs(not quick)
-    yield from expression_programs(2 if quick else 3, both_renderings=not quick)
+    yield from expression_programs(2 if quick else 3, both_renderings=True)
